@@ -11,9 +11,8 @@ let shards = ref 1
 
 let rec nat_of_int (i : int) : nat = if i <= 0 then O else S (nat_of_int (i - 1))
 
-let next_pow2 (n : int) : int =
-  let rec go p = if p >= n || p >= 1024 then p else go (p * 2) in
-  if n <= 1 then 1 else go 1
+(* the shard count NewShardedIndex derives from the requested one: the model's next_power_of_two *)
+let next_pow2 (n : int) : int = int_of_z (next_power_of_two (z_of_int n))
 
 (* the assignment of keys to shards: any function will do (theorem C10 holds for every one); the
    implementation uses xxhash *)
